@@ -417,6 +417,32 @@ void cpc_compressor<A>::uncompress_sliding_window(const uint32_t* data, uint32_t
   low_level_uncompress_bytes(window.data(), k, decoding_tables_for_high_entropy_byte[pseudo_phase], data, data_words);
 }
 
+// The sizes read from an image are validated before any buffer is sized from them.
+// No sketch has more coupons than its matrix has cells, its table never holds more than 3/4 of 2^(6 + lg_k) pairs,
+// and the compressor never writes more words than the safe lengths it allocates for its own output
+template<typename A>
+void cpc_compressor<A>::check_compressed_sizes(uint8_t lg_k, uint32_t num_coupons, uint32_t table_num_entries,
+    uint32_t table_data_words, uint32_t window_data_words) {
+  const uint64_t k = 1ULL << lg_k;
+  if (num_coupons > 64 * k) throw std::invalid_argument("Possible corruption: number of coupons " + std::to_string(num_coupons));
+  if (4ULL * table_num_entries > 3 * 64 * k) throw std::invalid_argument("Possible corruption: number of table entries " + std::to_string(table_num_entries));
+  if (window_data_words > safe_length_for_compressed_window_buf(static_cast<uint32_t>(k))) {
+    throw std::invalid_argument("Possible corruption: window data words " + std::to_string(window_data_words));
+  }
+  const uint8_t num_base_bits = table_num_entries == 0 ? 0
+      : golomb_choose_number_of_base_bits(static_cast<uint32_t>(k) + table_num_entries, table_num_entries);
+  if (table_data_words > safe_length_for_compressed_pair_buf(static_cast<uint32_t>(k), table_num_entries, num_base_bits)) {
+    throw std::invalid_argument("Possible corruption: table data words " + std::to_string(table_data_words));
+  }
+  // and never fewer bits than one per window byte and two per pair, so what is built from the counts is bounded by the data
+  if (window_data_words > 0 && k > 32ULL * window_data_words) {
+    throw std::invalid_argument("Possible corruption: window data words " + std::to_string(window_data_words));
+  }
+  if (table_num_entries > 16ULL * table_data_words) {
+    throw std::invalid_argument("Possible corruption: number of table entries " + std::to_string(table_num_entries));
+  }
+}
+
 template<typename A>
 size_t cpc_compressor<A>::safe_length_for_compressed_pair_buf(uint32_t k, uint32_t num_pairs, uint8_t num_base_bits) {
   // Long ybits = k + numPairs; // simpler and safer UB
